@@ -135,3 +135,97 @@ theorem process_targets (c : Comp) (d : Decl) (i : Inst) :
     · exact invoke_targets w ss c d i te hte
 
 end IV.Dr
+
+/-! ### with skip recording off no skip is recorded (round 10) -/
+namespace IV.Dr
+
+variable (w : World)
+
+theorem elemStep_noskip (c : Comp) (coe : Bool) (s : ElemState) (x : Nat)
+    (h : ∀ te ∈ s.excs, te.2 ≠ Exc.skip) : ∀ te ∈ (elemStep w c coe false s x).excs, te.2 ≠ Exc.skip := by
+  unfold elemStep
+  by_cases hf : s.failed = true
+  · simpa [hf] using h
+  · cases hb : w.elemBody c x with
+    | value n => simpa [hf, hb] using h
+    | noResult => simpa [hf, hb] using h
+    | fault e =>
+      cases e <;> simp only [hf, hb, if_false, Bool.false_eq_true] <;>
+        first
+        | exact h
+        | (intro te hte
+           simp only [List.mem_append, List.mem_singleton] at hte
+           rcases hte with hte | hte
+           · exact h te hte
+           · rw [hte]; simp)
+
+theorem elemFold_noskip (c : Comp) (coe : Bool) (xs : List Nat) (s : ElemState)
+    (h : ∀ te ∈ s.excs, te.2 ≠ Exc.skip) : ∀ te ∈ (xs.foldl (elemStep w c coe false) s).excs, te.2 ≠ Exc.skip := by
+  induction xs generalizing s with
+  | nil => simpa using h
+  | cons x xs ih => simp only [List.foldl_cons]; exact ih _ (elemStep_noskip w c coe s x h)
+
+theorem pluginFault_noskip (c : Comp) (e : Exc) : ∀ te ∈ logged w false c (pluginFault c e), te.2 ≠ Exc.skip := by
+  intro te hte
+  cases e <;> simp [pluginFault, logged] at hte <;> first | (rcases hte with h | h <;> simp_all; done) | (simp_all; done) | grind
+
+theorem invoke_noskip (c : Comp) (d : Decl) (i : Inst) :
+    ∀ te ∈ logged w false c (invoke w false c d i), te.2 ≠ Exc.skip := by
+  intro ⟨t, e'⟩ hte
+  show e' ≠ Exc.skip
+  unfold invoke at hte
+  cases hk : d.kind with
+  | plain =>
+    simp only [hk] at hte
+    cases hb : w.body c (d.deps.map i) with
+    | value v => simp [hb, logged] at hte
+    | fault e => cases e <;> simp [hb, logged] at hte <;> first | grind | (simp_all; done)
+  | plugin =>
+    simp only [hk] at hte
+    cases hb : w.body c (d.deps.map i) with
+    | value v => simp [hb, logged] at hte
+    | fault e => simp only [hb] at hte; exact pluginFault_noskip w c e (t, e') hte
+  | rule =>
+    simp only [hk] at hte
+    cases hb : w.body c (d.deps.map i) with
+    | value v => cases v <;> simp [hb, logged] at hte <;> first | grind | (simp_all; done)
+    | fault e => simp only [hb] at hte; exact pluginFault_noskip w c e (t, e') hte
+  | datasource =>
+    simp only [hk] at hte
+    cases hb : w.body c (d.deps.map i) with
+    | value v => simp [hb, logged] at hte
+    | fault e => cases e <;> simp [hb, logged] at hte <;> first | grind | (simp_all; done)
+  | parser coe =>
+    simp only [hk] at hte
+    cases hr : d.requires.head? with
+    | none => simp [hr, logged] at hte; first | grind | (simp_all; done)
+    | some r =>
+      simp only [hr] at hte
+      have hfold : ∀ xs : List Nat, ∀ te ∈ (xs.foldl (elemStep w c coe false) ⟨[], [], false⟩).excs, te.2 ≠ Exc.skip :=
+        fun xs => elemFold_noskip w c coe xs _ (by simp)
+      cases hv : getVal i r with
+      | multi xs =>
+        simp only [hv] at hte
+        split at hte
+        · simp only [logged, List.mem_append, Bool.false_eq_true, if_false, List.not_mem_nil, or_false] at hte
+          exact hfold xs (t, e') hte
+        · split at hte
+          · simp only [logged, List.mem_append, Bool.false_eq_true, if_false, List.not_mem_nil, or_false] at hte
+            exact hfold xs (t, e') hte
+          · simp only [logged] at hte
+            exact hfold xs (t, e') hte
+      | none | atom _ | resp _ | skipResp _ _ | noneResp =>
+        simp only [hv] at hte
+        split at hte <;> simp [logged] at hte <;> first | grind | (simp_all; done)
+
+theorem process_noskip (c : Comp) (d : Decl) (i : Inst) :
+    ∀ te ∈ logged w false c (process w false c d i), te.2 ≠ Exc.skip := by
+  intro te hte
+  unfold process at hte
+  split at hte
+  · simp [logged] at hte
+  · split at hte
+    · split at hte <;> simp [logged] at hte
+    · exact invoke_noskip w c d i te hte
+
+end IV.Dr
